@@ -60,7 +60,12 @@ theorem quit_wakes_poll (s : St) (h : Reachable s) (hp : s.phase = .polling) (hq
   · exact Or.inr ⟨j, hj, Or.inr hpc⟩
 
 /-- **quit_ends_loop**: the next test of the flag after a `quit()` — at the entry of `loop()` (a quit that completed
-before `loop()` started) or at the end of the current iteration — leaves the `while` -/
+before `loop()` started) or at the end of the current iteration — leaves the `while`.
+Limitation, stated rather than hidden: leaving the `while` is what `quit()` guarantees.  `loop()` *returns* after the
+drain that follows the `while` has found the queue empty (`do { doPendingFunctors(); } while (queueSize() > 0);`,
+C04 `final_drain_repeats` / `returns_only_with_empty_queue`); in that phase the loop thread is never blocked, and it
+returns as soon as the functors stop queueing further functors — a functor that always re-queues itself keeps
+`loop()` from returning (C04 `requeue_forever_never_returns_witness`). -/
 theorem quit_ends_loop (s : St) (h : Reachable s) (hq : s.qreq = true)
     (hp : s.phase = .entered ∨ s.phase = .looptest) : (stepLoop s).phase = .atExit := by
   have hquit : s.quit = true := by
@@ -69,7 +74,7 @@ theorem quit_ends_loop (s : St) (h : Reachable s) (hq : s.qreq = true)
     · rcases hp with hp | hp <;> simp [hp] at h1
     · rcases hp with hp | hp <;> simp [hp] at h1
   have := quitResetAtEntry_tie
-  rcases hp with hp | hp <;> simp [stepLoop, hp, testQuit, hquit, this]
+  rcases hp with hp | hp <;> simp [stepLoop, stepLoopFD, hp, testQuit, hquit, this]
 
 /-- **quit_in_callback**: after a `quit()` called on the loop thread itself (from a functor, an I/O handler, or before
 `loop()`), the loop never enters `poll` again: it finishes the current iteration and returns -/
@@ -149,7 +154,8 @@ theorem stuck_states (s : St) (h : Reachable s) (hs : Stuck s) :
     (reachable_invariant (P := EltInv) init_eltInv (fun _ k h => step_eltInv k h) h) hs
 
 /-- **join_terminates**: a destructor that waits in `join()` after a `quit()` was issued (by itself or by anybody) is
-never in an all-blocked state: some thread can move until the loop thread has finished -/
+never in an all-blocked state: some thread can move until the loop thread has finished.  (No hang; that the loop
+thread does finish additionally needs the functors to stop re-queueing, see `quit_ends_loop`.) -/
 theorem join_terminates (s : St) (h : Reachable s) (k : Nat) (hk : k ≠ s.L) (hpc : (s.thr k).pc = .dJoin)
     (hq : s.qreq = true) : ∃ j, enabled s j = true := by
   apply Classical.byContradiction
